@@ -82,6 +82,7 @@ func faultProfile(i int) vmodel.Profile {
 	p.MaxBody = 70000
 	p.BigBodyPct = 0
 	p.FailPct = 25
+	p.PoolPct = 45 // many writes whose content already exists elsewhere (dedup hits)
 	p.Weights[vmodel.OpGet] = 1
 	p.Weights[vmodel.OpHead] = 1
 	p.Weights[vmodel.OpGetTags] = 1
